@@ -470,9 +470,9 @@ func TestVerif_C35(t *testing.T) {
 	r.Assume("positions are assigned the way kernel.TopoWrite does (previous position + 1 under one lock, initial value from LastSnapshot); the in-memory counter itself is exercised by the kernel-level checks, here LastSnapshot is verified to be the highest stored position, also across restarts")
 	r.Assume("listing counts above the 500 limit are outside the quantifier and not queried")
 
-	ledgers := r.N(2, 8)
-	writes := r.N(900, 6500)
-	qpw := r.N(4, 3)
+	ledgers := r.N(3, 8)
+	writes := r.N(620, 6500)
+	qpw := r.N(3, 3)
 	base := t.TempDir()
 	var wg sync.WaitGroup
 	var mu sync.Mutex
